@@ -434,6 +434,8 @@ def finish(chk):
              "least one edge in some graph; every graph object FORD builds is compared (nodes, edges with style "
              "and label, truncated, hop_nodes, node labels)",
         checker_cmd="make theories/Props/C13.vo && coqc theories/Props/C13.v (Print Assumptions)",
-        assumptions=["module USE relation acyclic (FORD's toposort rejects cycles before graphs are built)",
+        assumptions=["the six defects recorded earlier are repaired in /repo (known_findings.d/C13.json fixed); "
+                     "their witnesses are replayed as regression inputs",
+                     "module USE relation acyclic (FORD's toposort rejects cycles before graphs are built)",
                      "7-bit names", "no external (extra_mods / external_links) projects",
                      "iteration order of Python sets only affects the order of DOT lines"])
